@@ -17,9 +17,10 @@ def build(inst):
     for v in inst["nodes"]:
         G.add_node(v)
     ew = inst.get("ew")
+    wden = inst.get("wden", 1)       # weights handed over as ew / wden (fractional flows); answers are reported in units of 1 / wden
     for i, (u, v) in enumerate(inst["edges"]):
         if ew is not None and len(ew) > i and ew[i] != NONE:
-            G.add_edge(u, v, flow=ew[i])
+            G.add_edge(u, v, flow=(ew[i] if wden == 1 else ew[i] / wden))
             if inst.get("ew2"):
                 G[u][v]["alt"] = inst["ew2"][i]      # a second weight attribute on the same graph
         else:
@@ -112,10 +113,12 @@ def run_instance(inst):
             elif name == "decompose":
                 paths, weights = H.decompose_using_max_bottleneck("flow")
                 ev["paths"] = [list(p) for p in paths]
-                ev["weights"] = [int(w) if float(w).is_integer() else NONE for w in weights]
+                wd = inst.get("wden", 1)
+                ev["weights"] = [int(round(w * wd)) if abs(w * wd - round(w * wd)) < 1e-9 else NONE for w in weights]
             elif name == "bottleneck":
                 b, p = fp.graphutils.max_bottleneck_path(G, "flow")
-                ev["ret"] = NONE if b is None else (int(b) if float(b).is_integer() else NONE)
+                wd = inst.get("wden", 1)
+                ev["ret"] = NONE if b is None else (int(round(b * wd)) if abs(b * wd - round(b * wd)) < 1e-9 else NONE)
                 ev["paths"] = [list(p)] if p is not None else []
             elif name == "scc_stats":          # stDiGraph: statistics of the strongly connected components, counted in edges
                 ev["ret"] = int(H.get_number_of_nontrivial_SCCs())
